@@ -594,13 +594,7 @@ func (fv *FuncVerifier) wrap(st *State, r Term, t types.Type) Term {
 	if bits == 64 && signed {
 		return r
 	}
-	m := IStr(pow2(bits))
-	if !signed {
-		return app(SInt, "mod", r, m)
-	}
-	half := IStr(pow2(bits - 1))
-	// ((r + half) mod m) - half
-	return Sub(app(SInt, "mod", Add(r, half), m), half)
+	return wrapTerm(r, bits, signed)
 }
 
 func (fv *FuncVerifier) binop(st *State, op token.Token, a, b Value, rt types.Type, pos token.Pos) Value {
@@ -751,7 +745,18 @@ func (fv *FuncVerifier) bitop(st *State, op token.Token, x, y Term, xt, yt, rt t
 	switch op {
 	case token.SHL:
 		if yconst && ky < 63 {
-			return fv.wrap2(Mul(x, IStr(pow2(int(ky)))), rt)
+			res := fv.wrap2(Mul(x, IStr(pow2(int(ky)))), rt)
+			if isLiteral(res) {
+				return res
+			}
+			// name the result and record that its low ky bits are zero (2^bits is a multiple of
+			// 2^ky, so wrapping preserves divisibility)
+			n := fv.enc.fresh("shl", SInt)
+			st.assume(Eq(n, res))
+			if int(ky) < bits {
+				st.assume(Eq(app(SInt, "mod", n, IStr(pow2(int(ky)))), I(0)))
+			}
+			return n
 		}
 	case token.SHR:
 		if yconst && ky < 63 {
@@ -795,6 +800,13 @@ func (fv *FuncVerifier) bitop(st *State, op token.Token, x, y Term, xt, yt, rt t
 		st.assume(Implies(And(Ge(x, I(0)), Ge(y, I(0))), And(Ge(r, I(0)), Le(r, x), Le(r, y))))
 	case token.OR:
 		st.assume(Implies(And(Ge(x, I(0)), Ge(y, I(0))), And(Ge(r, x), Ge(r, y), Le(r, Add(x, y)))))
+		// disjoint bit ranges: x a multiple of 2^k and 0 <= y < 2^k (or the other way round)
+		// give x|y == x+y (also for negative x in two's complement)
+		for _, k := range []int{1, 2, 3, 4, 5, 6, 7, 8, 12, 16, 24, 32} {
+			p := IStr(pow2(k))
+			st.assume(Implies(And(Eq(app(SInt, "mod", x, p), I(0)), Le(I(0), y), Lt(y, p)), Eq(r, Add(x, y))))
+			st.assume(Implies(And(Eq(app(SInt, "mod", y, p), I(0)), Le(I(0), x), Lt(x, p)), Eq(r, Add(x, y))))
+		}
 	}
 	return r
 }
@@ -804,12 +816,18 @@ func (fv *FuncVerifier) wrap2(r Term, t types.Type) Term {
 	if !ok {
 		return r
 	}
+	return wrapTerm(r, bits, signed)
+}
+
+// wrapTerm: two's-complement wrap of a mathematical integer into bits/signedness, written as
+// ite(in range, r, wrapped) so that the common no-overflow case needs no modular reasoning.
+func wrapTerm(r Term, bits int, signed bool) Term {
 	m := IStr(pow2(bits))
 	if !signed {
-		return app(SInt, "mod", r, m)
+		return Ite(And(Le(I(0), r), Lt(r, m)), r, app(SInt, "mod", r, m))
 	}
 	half := IStr(pow2(bits - 1))
-	return Sub(app(SInt, "mod", Add(r, half), m), half)
+	return Ite(And(Le(app(SInt, "-", half), r), Lt(r, half)), r, Sub(app(SInt, "mod", Add(r, half), m), half))
 }
 
 func (fv *FuncVerifier) stringEq(st *State, a, b Value) Term {
